@@ -88,7 +88,7 @@ def _cut_candidates(data):
 
 
 def connection(ctx, nsteps=2, streams=None, behaviours=None, sym_hole=False, disconnect=True, first_stream=None,
-               read_bufsize=None):
+               read_bufsize=None, first_whole=False):
     from aiohttp import web
     from refs import ref_http
 
@@ -172,7 +172,10 @@ def connection(ctx, nsteps=2, streams=None, behaviours=None, sym_hole=False, dis
         if sym_hole and step == 0 and b"Host: x" in data:
             i = data.index(b"Host: x") + 6
             data = data[:i] + ctx.bytes("hole", 1, "bytewise") + data[i + 1:]
-        cut = ctx.pick(f"cut{step}", _cut_candidates(bytes(data) if not isinstance(data, core.SSeq) else STREAMS[name]))
+        cands = _cut_candidates(bytes(data) if not isinstance(data, core.SSeq) else STREAMS[name])
+        if first_whole and step == 0 and nsteps > 1:
+            cands = [0]  # (every cut of a single stream is what the one-* jobs cover)
+        cut = ctx.pick(f"cut{step}", cands)
         trace.append([name, cut])
         for piece in (data[:cut], data[cut:]):
             if not len(piece) or lost:
@@ -208,8 +211,13 @@ def connection(ctx, nsteps=2, streams=None, behaviours=None, sym_hole=False, dis
         bad = feed(b"")
         if bad:
             return fail(bad)
-        loop.advance(6)
-        feed(b"")
+        # as long as handlers make progress the held bytes may still be taken
+        for _ in range(12):
+            before = (len(handled), len(backlog["b"]), len(tr.out))
+            loop.advance(6)
+            feed(b"")
+            if not len(backlog["b"]) or tr.closed or (len(handled), len(backlog["b"]), len(tr.out)) == before:
+                break
         if len(backlog["b"]) and tr.paused and not tr.closed:
             return fail("input-held-back-forever:transport-left-paused", held=len(backlog["b"]),
                         queued=len(proto._messages or ()))
@@ -299,7 +307,7 @@ def jobs(tier):
     core2 = ["get1", "pipe3", "post-cl", "upgrade-declined-tail", "upgrade-declined", "bad-lf", "close"]
     for n in (["get1", "post-cl", "upgrade-declined-tail", "upgrade-declined", "http10-ka", "head-get"] if quick else names):
         out.append(dict(name=f"two-{n}", func="connection",
-                        params=dict(nsteps=2, first_stream=n, streams=core2,
+                        params=dict(nsteps=2, first_stream=n, streams=core2, first_whole=quick,
                                     behaviours=["ok", "raise", "ignore-body", "stream"], disconnect=False),
                         limits=lim))
     # both pause reasons at once: queue at its cap while the last request's body trips the read buffer
@@ -323,5 +331,5 @@ REQUIRED_OUTCOMES = ("ok:1resp:open", "reject:", "ok:3resp")
 
 
 def bounds(tier):
-    return {"streams": sorted(STREAMS), "steps": "1 stream (all 21) with every cut and every behaviour of the first 3 requests; 2 streams (first fixed per job, second from 7) with 4 behaviours",
+    return {"streams": sorted(STREAMS), "steps": "1 stream (all 21) with every cut and every behaviour of the first 3 requests; 2 streams (first fixed per job - delivered whole in the quick tier, every cut in the thorough tier -, second from 7 with every cut) with 4 behaviours",
             "behaviours": BEHAVIOURS, "flow": "the in-memory transport honours pause_reading; read_bufsize=1 jobs on the body-carrying streams and a 32-deep pipeline whose last request body arrives in a second read with read_bufsize=4", "queue_cap": 32, "virtual_time": "6 s advanced after each step"}
